@@ -26,7 +26,7 @@ def run(ctx):
     thorough = ctx.tier == 'thorough'
     exe = pc.build_parfor(ctx)
     bg = pc.Background(ctx, exe, WHAT)
-    for suite in ('i8', 'wide', 'nest'):
+    for suite in ('i8', 'wide', 'nest', 'multi'):
         bg.start(suite)
 
     # E1 inputs ---------------------------------------------------------------------------------
@@ -67,7 +67,7 @@ def run(ctx):
         with open(allp, 'w') as f:
             for suite, tr, tot in done:
                 f.write(open(tr).read())
-        done = [('i8+wide+nest', allp, {'completed': sum(t.get('completed', 0) for _, _, t in done)})]
+        done = [('i8+wide+nest+multi', allp, {'completed': sum(t.get('completed', 0) for _, _, t in done)})]
     for suite, tr, tot in done:
         ctx.validate(pc.SPEC, 'ParForTrace.tla', 'ParForTrace_C12.cfg', tr, WHAT,
                      executions=tot.get('completed', 0), label='records ' + suite, timeout=2400)
